@@ -567,3 +567,49 @@ pub fn sequential_reference<S: Settings>(
     OUTSIDE_SHUTTLE.with(|c| c.set(was_outside));
     result
 }
+
+
+/// The random stream of a chain comes from the RNG handed to `Settings::new_chain` (the sampler
+/// gives every chain its own ChaCha8 stream): three chains built through the public constructor
+/// with streams (1, 2, 1) from the SAME start point - the first two must differ, the first and
+/// the third must agree bit for bit.
+pub fn stream_check<S: Settings>(settings: &S) -> Option<String> {
+    use nuts_rs::Chain;
+    use nuts_rs::Storable;
+    use nuts_rs::verif::StatsDims;
+    let saved = LOG.with(|l| std::mem::take(&mut *l.borrow_mut()));
+    let was_outside = OUTSIDE_SHUTTLE.with(|c| c.replace(true));
+    let model = HModel::new(settings.seed(), 2, FaultPlan::default());
+    let run = |stream: u64| -> Result<Vec<String>, String> {
+        let mut rng = ChaCha8Rng::seed_from_u64(settings.seed());
+        rng.set_stream(stream);
+        let logp = model.math(&mut rng).map_err(|e| format!("{e:#}"))?;
+        let dim = logp.dim();
+        let mut sampler = settings.new_chain(0, logp, &mut rng);
+        let start: Vec<f64> = (0..dim).map(|i| 0.3 - 0.7 * i as f64).collect();
+        sampler.set_position(&start).map_err(|e| format!("{e:#}"))?;
+        let mut rows = vec![];
+        for _ in 0..4 {
+            let (_p, mut draw_data, mut stats, info) = sampler.expanded_draw().map_err(|e| format!("{e:#}"))?;
+            let math = sampler.math();
+            let dims = StatsDims::from(&*math);
+            rows.push(format!("{:?}", canonical_row(&stats.get_all(&dims), &draw_data.get_all(&*math), &info)));
+        }
+        Ok(rows)
+    };
+    let res = (|| {
+        let a = run(1)?;
+        let b = run(2)?;
+        let c = run(1)?;
+        if a != c {
+            return Err("two chains built with the same RNG stream from the same start differ".to_string());
+        }
+        if a == b {
+            return Err("chains built with different RNG streams (same seed, same start point) produce bit-identical draws: the chain ignores the RNG it is given".to_string());
+        }
+        Ok(())
+    })();
+    LOG.with(|l| *l.borrow_mut() = saved);
+    OUTSIDE_SHUTTLE.with(|c| c.set(was_outside));
+    res.err()
+}
